@@ -145,11 +145,54 @@ fn freerun(interval_ms: u64) -> i32 {
     let c0 = calls.load(Ordering::SeqCst);
     std::thread::sleep(Duration::from_millis(interval_ms * 10 + 100));
     let idle_calls = calls.load(Ordering::SeqCst) - c0;
+    // Replacing the reporter at run time: spans that finish while the old reporter is being torn
+    // down are not lost; they reach the new reporter.
+    let replaced_missing = {
+        use std::sync::mpsc;
+        struct Old {
+            go: mpsc::Sender<()>,
+            ack: mpsc::Receiver<()>,
+        }
+        impl Reporter for Old {
+            fn report(&mut self, _spans: Vec<SpanRecord>) {}
+        }
+        impl Drop for Old {
+            fn drop(&mut self) {
+                // while this reporter goes away a worker finishes its spans
+                let _ = self.go.send(());
+                let _ = self.ack.recv_timeout(Duration::from_secs(2));
+                std::thread::sleep(Duration::from_millis(60));
+            }
+        }
+        let (go_tx, go_rx) = mpsc::channel();
+        let (ack_tx, ack_rx) = mpsc::channel();
+        fastrace::set_reporter(Old { go: go_tx, ack: ack_rx }, Config::default().report_interval(Duration::from_millis(interval_ms.max(1))));
+        let worker = std::thread::spawn(move || {
+            let root = Span::root("replace.r", SpanContext::new(TraceId(7777), SpanId(0)));
+            let child = Span::enter_with_parent("replace.c", &root);
+            let _ = go_rx.recv_timeout(Duration::from_secs(5));
+            {
+                let _g = root.set_local_parent();
+                let _l = LocalSpan::enter_with_local_parent("replace.l");
+            }
+            drop(child);
+            drop(root);
+            let _ = ack_tx.send(());
+        });
+        let n2 = Arc::new(AtomicU64::new(0));
+        let c2 = Arc::new(AtomicU64::new(0));
+        fastrace::set_reporter(Count(n2.clone(), c2.clone()), Config::default().report_interval(Duration::from_millis(interval_ms.max(1))));
+        worker.join().unwrap();
+        fastrace::flush();
+        std::thread::sleep(Duration::from_millis(50));
+        fastrace::flush();
+        3u64.saturating_sub(n2.load(Ordering::SeqCst))
+    };
     println!(
         "{}",
-        serde_json::json!({"interval_ms": interval_ms, "rounds": rounds, "rounds_not_delivered_in_time": late, "deadline_ms": deadline.as_millis() as u64, "worst_latency_ms": worst.as_secs_f64() * 1000.0, "idle_report_calls_in_10_intervals": idle_calls})
+        serde_json::json!({"interval_ms": interval_ms, "rounds": rounds, "rounds_not_delivered_in_time": late, "deadline_ms": deadline.as_millis() as u64, "worst_latency_ms": worst.as_secs_f64() * 1000.0, "idle_report_calls_in_10_intervals": idle_calls, "spans_lost_while_the_reporter_was_replaced": replaced_missing})
     );
-    if late > 0 || idle_calls == 0 {
+    if late > 0 || idle_calls == 0 || replaced_missing > 0 {
         1
     } else {
         0
